@@ -9,6 +9,7 @@ from __future__ import annotations
 from harness.common import ASSUME, FAIL, PASS, check, tape_harness  # noqa: F401
 from harness import oracles as O
 from harness.types import ALPHABETS, MEMBERS, TG_DEEP, TG_FULL, TG_QUICK, TG_UNION, TGrammar, build_type, build_union_type
+from vfix import classes as K_
 from harness.values import G_MEDIUM, G_QUICK, G_SMALL, G_TINY, Grammar, build_value, show
 
 import monkeytype.typing as MT
@@ -168,6 +169,59 @@ def inferred_body(ta, tb, n, k, g: Grammar):
     return check(True)
 
 
+class _R:
+    pass
+
+
+class _Q:
+    pass
+
+
+# eight classes with one common base, six with another, interleaved, plus atoms: consecutive unions of the stream have
+# DIFFERENT most specific common bases (_R, _Q, or none)
+_STREAM_R = tuple(type(f"R{i}", (_R,), {"__module__": __name__}) for i in range(8))
+_STREAM_Q = tuple(type(f"Q{i}", (_Q,), {"__module__": __name__}) for i in range(6))
+_STREAM_POOL = tuple(x for pair in zip(_STREAM_R, _STREAM_Q + (int, str)) for x in pair)
+
+
+def stream_body(t):
+    """ONE long-lived rewriter (the DEFAULT_REWRITER singleton, or one reused RewriteLargeUnion) is handed a stream of a few
+    hundred distinct large unions that nobody else keeps alive: whatever it memoises per union (by identity, by address)
+    must not be served to a different union later."""
+    import itertools
+    from typing import Union as _U
+
+    pool = _STREAM_POOL
+    rw = (DEFAULT_REWRITER, RewriteLargeUnion(5), RewriteMostSpecificCommonBase())[t.take(3)]
+    size = 6 if t.take(2) == 0 else 3
+    # typing memoises Union[...] in a bounded LRU, so a union object normally outlives ~128 later ones; built past that memo
+    # (what eviction amounts to) the object dies with its last reference and its address is free for the next one at once
+    import typing as _typing
+
+    fresh = t.take(2) == 1
+    mk = (lambda ms: _typing.Union._getitem(_typing.Union, ms)) if fresh else (lambda ms: _U[ms])
+    from engine.envmodel import adversarial_id
+
+    count = 60 if fresh else 200
+    with adversarial_id():
+        streams = [itertools.cycle(itertools.combinations(_STREAM_R, size)), itertools.cycle(itertools.combinations(_STREAM_Q, size)),
+                   itertools.islice(itertools.combinations(pool, size), 0, None, 7)]
+        for i in range(count):
+            members = next(streams[i % 3])  # common base _R, then _Q, then (mostly) none, ...
+            typ = mk(members)
+            try:
+                out = rw.rewrite(typ)
+            except Exception as e:  # noqa: BLE001
+                return check(False, lambda: f"union #{i} of the stream: {type(rw).__name__}.rewrite({O.show_type(typ)}) raised {type(e).__name__}: {e}")
+            if not admits(out, typ):
+                return check(False, lambda: f"union #{i} of a stream through one {type(rw).__name__}: {O.show_type(typ)} was rewritten to {O.show_type(out)}, which does not admit it")
+            del typ, out
+    return check(True)
+
+
+tape_harness("stream", [("t", 3)], {}, stream_body, globals())
+
+
 def _i(x):
     try:
         return int(x)
@@ -212,6 +266,8 @@ for _gn, _g in VGS.items():
 def shards(name, prefix=3):
     from engine.verdicts import enumerate_prefixes
 
+    if name == "stream":
+        return [{"t0": i, "t1": j, "t2": f} for i in range(3) for j in range(2) for f in range(2)]
     kind, g, pairs = REG[name]
     if kind == "types":
         pres = enumerate_prefixes(lambda t: type_body(t, 3, g, pairs), prefix)
@@ -224,6 +280,8 @@ def shards(name, prefix=3):
 def describe(name, args):
     from engine.verdicts import Tape
 
+    if name == "stream":
+        return dict(args)
     kind, g, pairs = REG[name]
     n = args.get("n")
     if kind == "types":
